@@ -174,6 +174,9 @@ struct World {
     /// enough to rebuild any crash image from the seeds
     events: Vec<Event>,
     delay0: bool,
+    /// fault plan given by the last `fault` command: armed only for the next `open`, as in the
+    /// model (Driver.world_step: only COpen passes the plan on)
+    pending_fault: Option<FaultPlan>,
 }
 
 fn wal_name(n: u64) -> String {
@@ -190,6 +193,7 @@ impl World {
             seeds: Vec::new(),
             events: Vec::new(),
             delay0: false,
+            pending_fault: None,
         };
         world.fresh_dir();
         world
@@ -214,9 +218,9 @@ impl World {
     /// Drops the live log without letting its final flush appear in the trace.
     fn forget_log(&mut self) {
         if let Some(log) = self.log.take() {
-            hooks::set_recording(false);
-            let _ = catch_unwind(AssertUnwindSafe(move || drop(log)));
-            hooks::set_recording(true);
+            // not dropped: dropping would flush the BufWriter into the directory behind the trace's back;
+            // the model continues from what had reached the OS (a few file descriptors leak per case)
+            std::mem::forget(log);
             let _ = hooks::take_events();
         }
     }
@@ -403,6 +407,9 @@ impl World {
         self.delay0 = policy_tok.starts_with("d0");
         let policy = parse_policy(policy_tok);
         let dir = self.dir.clone();
+        if let Some(plan) = self.pending_fault.take() {
+            hooks::arm_fault(Some(plan));
+        }
         let res = catch_unwind(AssertUnwindSafe(|| {
             MultiRecordLog::open_with_prefs(&dir, policy)
         }));
@@ -687,12 +694,12 @@ impl World {
                     "UnexpectedEof" => io::ErrorKind::UnexpectedEof,
                     other => panic!("bad kind {other}"),
                 };
-                hooks::arm_fault(Some(FaultPlan {
+                self.pending_fault = Some(FaultPlan {
                     site,
                     nth,
                     persistent,
                     kind,
-                }));
+                });
             }
             "mem" => cmd_mem(&toks[1..]),
             "consts" => {
